@@ -59,6 +59,10 @@ def run(ctx) -> None:
         ctx.reuse("C04.frame", c02.nonneg, kind)
     # a requested volume that is split into several steps is charged in full: the steps add up to the request
     ctx.reuse("C04.split-sum", c06.partition_volume)
+    # a refused operation charges nothing (the limit check precedes the store), and no error of an operation is discarded
+    for kind in ("add", "remove"):
+        ctx.reuse("C04.frame", c02.guard, kind)
+    ctx.reuse("C04.frame", c02.no_swallow)
     for dev in concrete_devices(ctx):
         ctx.reuse("C04.pairing", c06.wiring, dev)
         ctx.reuse("C04.pairing", c06.iteration_space, dev)
